@@ -196,6 +196,24 @@ def run(ctx):
                         ctx.violation("pack-unpack", "unpack(pack(x)) != x: double-precision column %s lost precision because the "
                                       "first column is single precision" % k, dict(desc, column=k))
                         break
+            # metadata that is present but "falsy": a numeric reference epoch of 0.0 (times counted from zero; the class documents
+            # `t_ref : Time or numeric`) must survive indexing, copying and median_period like any other
+            if rng.random() < 0.15:
+                tnum = float(rng.choice([0.0, 0.0, 54321.5]))
+                sn = JokerSamples(t_ref=tnum, poly_trend=s.poly_trend, n_offsets=s.n_offsets)
+                for k_ in s.par_names:
+                    sn[k_] = s[k_]
+                M.drain()
+                derived = {"slice": sn[0:max(1, N // 2)], "mask": sn[np.arange(N) % 2 == 0], "int": sn[0], "copy": sn.copy(),
+                           "median_period": sn.median_period()}
+                M.drain()          # the contracts' metadata comparison is written for Time epochs: judged here instead
+                extra += 1
+                ops.append("numeric-t_ref")
+                for nm_, obj_ in derived.items():
+                    if obj_.t_ref is None or float(obj_.t_ref) != tnum or obj_.poly_trend != s.poly_trend or obj_.n_offsets != s.n_offsets:
+                        ctx.violation("metadata-lost", "%s of a table with numeric t_ref=%r: (t_ref, poly_trend, n_offsets) became %r"
+                                      % (nm_, tnum, (obj_.t_ref, obj_.poly_trend, obj_.n_offsets)), dict(desc, op=nm_))
+                        break
             # phase times
             phase = rng.uniform(-7, 7) * u.rad if rng.random() < 0.7 else rng.uniform(-400, 400) * u.deg
             if s.t_ref is not None:
